@@ -77,9 +77,68 @@ def mutate_xml(xml, r):
     return ET.tostring(root, encoding="unicode")
 
 
+def finalize_plan(seed, k, rp):
+    """(F) a failing element inside <finalize>: an invoked child sends n events to its parent, whose finalize block is
+    log F1, the failing element, log F2.  The parent stays in the invoking state (targetless transitions)."""
+    dm = rp.choice(["lua", "promela"])
+    bad = rp.choice(["assign", "send", "log"])
+    expr = rp.choice([x for x in gen.BAD_EXPR[dm] if x not in ("7 / 0", "7 % 0")])
+    if bad == "assign":
+        failing = '<assign location="v0" expr="%s"/>' % expr
+    elif bad == "send":
+        failing = '<send event="x" type="nosuch-ioproc"/>'
+    else:
+        failing = '<log label="FX" expr="%s"/>' % expr
+    n = rp.randint(1, 4)
+    sends = "".join('<send event="e%d" target="#_parent"%s/>' % (j, (' delay="%dms"' % rp.choice([1, 2, 5])) if rp.random() < 0.5 else "") for j in range(n))
+    typ = ' type="int"' if dm == "promela" else ""
+    xml = ('<scxml xmlns="http://www.w3.org/2005/07/scxml" version="1.0" datamodel="%s" initial="s0"><datamodel><data id="v0" expr="1"%s/></datamodel>'
+           '<state id="s0"><invoke type="scxml" id="kid"><content><scxml xmlns="http://www.w3.org/2005/07/scxml" version="1.0" datamodel="null" initial="c"><state id="c"><onentry>%s</onentry></state></scxml></content>'
+           '<finalize><log label="F1" expr="v0"/>%s<log label="F2" expr="v0"/></finalize></invoke>'
+           '<transition event="error"><log label="ERR" expr="v0"/></transition>'
+           '<transition event="ping"><log label="PONG" expr="v0"/></transition>'
+           '<transition event="*"><log label="EV" expr="v0"/></transition></state></scxml>') % (dm, typ, sends, failing)
+    engine = rp.choice(["default", "large", "fast"])
+    ops = [{"op": "create", "i": 0, "chart": "main", "engine": engine}]
+    for _ in range(4):
+        ops += [{"op": "run", "i": 0, "block": 0, "until": ["IDLE"], "max": 60}, {"op": "sleep", "ms": rp.choice([1, 3, 10])}]
+    # all delayed sends of the child are due by now at the latest
+    ops += [{"op": "sleep", "ms": 30}, {"op": "run", "i": 0, "block": 0, "until": ["IDLE"], "max": 60}]
+    ops += [{"op": "recv", "i": 0, "name": "ping"}, {"op": "run", "i": 0, "block": 0, "until": ["IDLE"], "max": 60}]
+    return {"id": k, "seed": seed, "entropy_seed": seed & 0x7fffffff, "mode": "F", "flavour": "san" if rp.random() < 0.33 else "plain", "planted": "finalize-" + bad,
+            "n_child_events": n, "sched": {"seed": seed & 0x7fffffff, "policy": "nonpreempt", "max_decisions": 400000}, "step_budget": 400,
+            "charts": {"main": xml}, "actors": {"main": ops}}
+
+
+def finalize_oracle(plan, res, v, info):
+    logs = [r[6].split(":")[0] for r in res.lines if r[KIND] == "log" and r[SESS] == "i0" and r[5] == 4]
+    evs = [r[5]["name"] for r in res.lines if r[KIND] == "ev" and r[SESS] == "i0"]
+    child = [e for e in evs if e.startswith("e") and e[1:].isdigit()]
+    info["executed_fail"] = logs.count("F1")
+    info["nontrivial"] = logs.count("F1") >= 1
+    for r in res.lines:
+        if r[KIND] == "exc" and r[5] == "step":
+            v.append(("C07.keeps-running", "an exception left step() while a <finalize> block with a failing element ran: %s %s %s" % (r[6], r[7], r[8])))
+            return
+    if "F2" in logs:
+        v.append(("C07.skip-rest-or-other-blocks", "the element after the failing one in <finalize> was executed (logs %s)" % logs[:12]))
+    if len(child) != plan["n_child_events"]:
+        v.append(("C07.keeps-running", "child sent %d events, the parent processed %s" % (plan["n_child_events"], child)))
+    if logs.count("F1") != len(child) or logs.count("EV") != len(child):
+        v.append(("C07.skip-rest-or-other-blocks", "finalize ran %d times and the event's own transition %d times for %d events from the child (logs %s)" % (
+            logs.count("F1"), logs.count("EV"), len(child), logs[:16])))
+    if len([e for e in evs if e.startswith("error.")]) != len(child):
+        v.append(("C07.error-event", "%d error events for %d failing finalize executions (events %s)" % (len([e for e in evs if e.startswith("error.")]), len(child), evs[:16])))
+    if "PONG" not in logs:
+        v.append(("C07.keeps-running", "the interpreter did not answer an event sent after the failing finalize blocks (events %s)" % evs[:16]))
+
+
 def gen_plan(seed, k):
     rp = usimlib.substream(seed, "plan")
-    mode = "B" if rp.random() < 0.2 else "A"
+    x0 = rp.random()
+    if x0 < 0.06:
+        return finalize_plan(seed, k, rp)
+    mode = "B" if x0 < 0.25 else "A"
     flavour = "san" if rp.random() < 0.33 else "plain"
     dm = rp.choice(["lua", "lua", "promela", "promela", "null"])
     feats = {}
@@ -120,6 +179,9 @@ def oracle(plan, res):
         info["nontrivial"] = stepped
         return v, info
     if res.failed_hard():
+        return v, info
+    if plan.get("mode") == "F":
+        finalize_oracle(plan, res, v, info)
         return v, info
     for r in res.lines:
         if r[KIND] == "op>" and r[6] == "validate" and r[7] == "FATAL":
@@ -173,7 +235,7 @@ def run_one(ctx, usim, seed, k, acc):
     acc.count("pol.nonpreempt")
     acc.count("mode." + plan["mode"])
     acc.count("flavour." + plan["flavour"])
-    if plan["mode"] == "A":
+    if plan["mode"] in ("A", "F"):
         acc.count("fault.planted_failing_" + str(plan["planted"]))
         acc.count("probe.planted_element_executed", info["executed_fail"])
     else:
@@ -189,6 +251,18 @@ def run_one(ctx, usim, seed, k, acc):
     if len(acc.samples) < 1 and info["nontrivial"] and k < 64:
         acc.samples.append({"run": k, "seed": seed, "mode": plan["mode"], "flavour": plan["flavour"], "planted": plan["planted"],
                             "chart": plan["charts"]["main"], "ops": plan["actors"]["main"]})
+
+
+def plan_ok(plan):
+    """the reduction of a finalize scenario keeps the scenario: the oracle reads the number of child events and the final ping from the plan"""
+    if plan.get("mode") != "F":
+        return True
+    xml = plan["charts"]["main"]
+    ops = plan["actors"]["main"]
+    return ("<finalize>" in xml and xml.count('target="#_parent"') == plan["n_child_events"] and 'label="F1"' in xml and 'label="F2"' in xml and
+            'event="ping"' in xml and 'event="*"' in xml and any(o.get("op") == "recv" for o in ops) and
+            any(o.get("op") == "sleep" and o.get("ms") == 30 for o in ops) and
+            ops and ops[-1].get("op") == "run" and sum(1 for o in ops if o.get("op") == "run") >= 3)
 
 
 LOAD_FRAMES = ("::init(", "Interpreter::validate", "InterpreterIssue::forInterpreter", "setupDOM", "getReachableStates", "MicroStep::init")
